@@ -92,6 +92,17 @@ BUILT = {
         design="DESIGN.md section 6 C17",
         technique="TLA+ substitution semantics model-checked with TLC + TLC trace validation of recorded Rule.test calls",
     ),
+    "C08": dict(
+        text=("ReadOnly.tla models callers (threads) running validate / Rule.test / get_data / filter calls as processes of "
+              "sub-steps (private copy, resolve with on-the-fly condition combination, cast write-back, judge) over a shared "
+              "schema and shared documents; TLC explores all sub-step interleavings of 2 threads for Immutable, "
+              "DocsUnchanged, Repeatable (result = result on fresh objects) and termination of every call, rejecting the "
+              "re-initialisation and cast-in-place deviations. TLC-generated call sequences are replayed on shared real "
+              "objects sequentially (attribute-write tracer, structural snapshots with identity, result = spec = fresh) and "
+              "from 4 threads; recorded calls of the C01-C07/C15/C17 drivers are judged by TLC for an empty write set."),
+        design="DESIGN.md section 6 C08",
+        technique="TLA+ multi-caller process model checked with TLC (interleavings) + TLC-generated call sequences replayed on shared real objects + TLC trace validation of write sets",
+    ),
 }
 
 
